@@ -50,6 +50,7 @@ impl CoseSignature {
     pub(crate) fn from_cbor_value_nested(value: Value, depth: usize) ->« (r:» Result<Self>«)
         ensures
             r is Ok <==> crate::header::sig_ok(value, depth as nat),
+            r matches Ok(s) ==> crate::header::sig_res(value, depth as nat, s),
         decreases crate::header::max_nest() - depth, value, 5nat» {«
         broadcast use crate::vprelude::axiom_question_mark_uses_from;»
         let mut a = value.try_as_array()?;
